@@ -312,6 +312,7 @@ def pit_case(torch, seed, style):
             # gradient in the order of all_pids; tensors that occur several times: compare the sum (handled by the caller)
             S['pids'] = [{'pid': k, 'tensor': id(t) % 10 ** 9, 'trainable': bool(t.requires_grad), 'grad': gmap.get(id(t))} for k, t in enumerate(plist)]
             S['n_layers'] = len(layers)
+            S['lens'] = [t.numel() for t in plist]
     except Exception as ex:
         o['fails'].append(('exception:' + stage.split(':')[0], '%s: %s' % (type(ex).__name__, str(ex)[:300])))
         o['trace'] = traceback.format_exc()[-1500:]
